@@ -6,12 +6,23 @@ import (
 	"os"
 	"runtime"
 	"sort"
+	"sync/atomic"
 	"time"
 
 	"github.com/biogo/biogo/concurrent"
 
 	"verif/harness/vt"
 )
+
+type countOp struct {
+	op
+	ran *int32
+}
+
+func (c countOp) Operation() (interface{}, error) {
+	atomic.AddInt32(c.ran, 1)
+	return c.op.Operation()
+}
 
 // ProcRuns performs un-gated Processor runs: n operations through t workers.
 // A panic in a worker goroutine kills the process; the caller (bin/check)
@@ -31,6 +42,35 @@ func ProcRuns(w *vt.W, rng *rand.Rand, runs int) {
 		b := []int{0, 1, 2, t, n + 1}[rng.Intn(5)]
 		q := 1 + rng.Intn(3)
 		fmt.Fprintf(os.Stderr, "procrun id=%d t=%d n=%d b=%d q=%d\n", id, t, n, b, q)
+		if id%3 == 2 {
+			// Wait right after Close, with room for every operation and result so that
+			// nothing blocks: when Wait returns every operation must have been run
+			var ran int32
+			queue := make(chan concurrent.Operator, n+1)
+			p := concurrent.NewProcessor(queue, n+1, t)
+			for i := 1; i <= n; i++ {
+				p.Process(countOp{op(i), &ran})
+			}
+			p.Close()
+			p.Wait()
+			done := int(atomic.LoadInt32(&ran))
+			bad := ""
+			if done != n {
+				bad = fmt.Sprintf("Wait returned after Close with %d of %d operations run", done, n)
+			}
+			got := []int{}
+			for {
+				v, err := p.Result()
+				if v == nil && err == nil {
+					break
+				}
+				got = append(got, v.(int))
+			}
+			sort.Ints(got)
+			w.Emit(vt.Ev{"op": "procrun", "id": id, "t": t, "n": n, "b": n + 1, "q": n + 1, "results": got, "closed": true,
+				"waited": true, "bad": bad})
+			continue
+		}
 		queue := make(chan concurrent.Operator, q)
 		p := concurrent.NewProcessor(queue, b, t)
 		go func() {
